@@ -831,6 +831,63 @@ func main() {
 		distinct += nA1 + nA2 - overlap - 1 // the empty string is the trivial case
 	}
 
+	// ---- family G: IPv6 literals. A text that contains no dotted quad is never an address, however
+	// else it may denote an IPv4 host: (G1) every string of length 0..maxG over {':','f','0'}
+	// (thorough: plus '1') - the shortest IPv4-mapped literals ("::ffff:0:0") are among them - and
+	// (G2) the hexadecimal IPv4-mapped / IPv4-compatible / NAT64 / 6to4 spellings of 8 IPv4 addresses,
+	// bare, bracketed, with zone and with 6 port suffixes.
+	{
+		alphaG, maxG := []byte{':', 'f', '0'}, 10
+		if r.Thorough() {
+			alphaG = []byte{':', 'f', '0', '1'}
+		}
+		var overlapG int64
+		var gmu sync.Mutex
+		nG1 := allStrings(alphaG, maxG, func(s string, t *tally) {
+			checkAll(s, t)
+			if inA(s) {
+				gmu.Lock()
+				overlapG++
+				gmu.Unlock()
+			}
+		})
+		ips := [][4]byte{{0, 0, 0, 0}, {1, 2, 3, 4}, {10, 0, 0, 1}, {127, 0, 0, 1}, {192, 168, 1, 100}, {192, 168, 1, 255}, {224, 0, 0, 1}, {255, 255, 255, 255}}
+		set := map[string]struct{}{}
+		for _, ip := range ips {
+			h, l := fmt.Sprintf("%x", uint16(ip[0])<<8|uint16(ip[1])), fmt.Sprintf("%x", uint16(ip[2])<<8|uint16(ip[3]))
+			H, L := fmt.Sprintf("%04x", uint16(ip[0])<<8|uint16(ip[1])), fmt.Sprintf("%04X", uint16(ip[2])<<8|uint16(ip[3]))
+			for _, x := range []string{
+				"::ffff:" + h + ":" + l, "::FFFF:" + h + ":" + l, "::ffff:" + H + ":" + L, "0:0:0:0:0:ffff:" + h + ":" + l,
+				"0000:0000:0000:0000:0000:ffff:" + H + ":" + L, "::0:ffff:" + h + ":" + l, "0::ffff:" + h + ":" + l, "0:0::ffff:" + h + ":" + l,
+				"::" + h + ":" + l, "0:0:0:0:0:0:" + h + ":" + l, "64:ff9b::" + h + ":" + l, "2002:" + h + ":" + l + "::", "::ffff:0:" + h + ":" + l,
+			} {
+				for _, form := range []string{"%s", "[%s]", "%s%%eth0", "[%s%%eth0]", "[%s%%1]"} {
+					base := fmt.Sprintf(form, x)
+					set[base] = struct{}{}
+					for _, port := range []string{":0", ":1", ":59999", ":60000", ":60001", ":65535"} {
+						set[base+port] = struct{}{}
+					}
+				}
+			}
+		}
+		g2 := make([]string, 0, len(set))
+		for s := range set {
+			g2 = append(g2, s)
+		}
+		sort.Strings(g2)
+		var t tally
+		for _, s := range g2 {
+			if c := spec.ClassifyAddr(spec.AddrBind, s); c.Verdict != spec.AddrMustReject {
+				r.Machinery("family G2 text %q is not a must-reject case of the reference (%v)", s, c.Reason)
+			}
+			checkAll(s, &t)
+		}
+		t.flush()
+		r.Set("familyG1_ipv6_alphabet_strings", nG1)
+		r.Set("familyG2_ipv6_spellings_of_ipv4", int64(len(g2)))
+		distinct += nG1 - overlapG + int64(len(g2))
+	}
+
 	// ---- family D: Set / UnmarshalJSON on a receiver that already holds a value. The verdict and the
 	// resulting value must be those of the text alone, whatever the receiver held before (including
 	// a value the role's port rule forbids, which only the XxxAddrFrom constructors can produce, and
@@ -1060,6 +1117,7 @@ func main() {
 	r.Rule(fmt.Sprintf("inputs = (A) every string of length 0..%d over {'1','2','.',':'} and of length 0..%d over {'0','1','6','.',':','x',' '}; "+
 		"(B) a.b.c.d+suffix with [B1] two octet positions over {0,1,9,10,99,100,199,255,256,999,00,01} (others fixed to 12.34.56.78) and [B3] each position over 0..255, each x %d port suffixes (none, boundary ports, 65536, 99999, leading zeros, signs, blanks, empty); "+
 		"[B2] all 65536 plain-decimal ports x %s address texts; [B4] %s; "+
+		"(G) every string of length 0..10 over {':','f','0'} (thorough: plus '1') and the hexadecimal IPv4-mapped / -compatible / NAT64 / 6to4 IPv6 spellings of 8 IPv4 addresses (13 spellings x bare / bracketed / zoned x 7 port suffixes): no dotted quad, must be rejected. "+
 		"(C) every string within edit distance %d (insert/delete/substitute over a 12-symbol alphabet incl. '[',']','%%','x',' ') of 6 valid addresses. "+
 		"Each input x 4 roles x {Parse, Set, UnmarshalJSON, MustParse}; String()->Parse and MarshalJSON->UnmarshalJSON for every accepted in-form input. (D) Set and UnmarshalJSON on receivers already holding each of 3 addresses x 6 ports (built with XxxAddrFrom, rule-violating ports included) x 29 texts incl. the receiver's own String(). (F) 15 texts in 6 JSON spellings (\\uXXXX escapes, surrounding white space) through encoding/json. (E) every ordered pair of 23 texts parsed one directly after the other through Parse, Set and UnmarshalJSON (JSON from one reused buffer). "+
 		"A case is a (role, input string) pair; distinct = distinct non-empty input strings x 4 roles, counted conservatively "+
